@@ -75,6 +75,8 @@ def regenerate():
 
 def check(prop):
     """[(file, short unified diff)] for every anchor file of `prop` whose normalised text differs from its pin"""
+    if os.environ.get("VERIF_NO_PINS") == "1":      # diagnostic switch: measure what the search finds without the pins
+        return []
     try:
         pins = json.load(open(PINS_FILE))
     except (OSError, ValueError) as e:
